@@ -239,7 +239,7 @@ func (c *checker) search(lo, k int, st *seqState) bool {
 		return true
 	}
 	c.nodes++
-	if c.nodes > 5_000_000 {
+	if c.nodes > nodeBudget {
 		return false
 	}
 	for lo < len(c.ops) && c.done[lo] {
@@ -299,11 +299,14 @@ func (c *checker) search(lo, k int, st *seqState) bool {
 	return false
 }
 
-func linearizable(ops []*hop) (bool, int) {
-	c := &checker{ops: ops, done: make([]bool, len(ops)), memo: map[string]struct{}{}}
-	ok := c.search(0, 0, &seqState{m: map[string]string{}})
+const nodeBudget = 400_000
 
-	return ok, c.nodes
+// linearizable returns the verdict, the number of search nodes, and whether the search gave up.
+func linearizable(ops []*hop) (ok bool, nodes int, inconclusive bool) {
+	c := &checker{ops: ops, done: make([]bool, len(ops)), memo: map[string]struct{}{}}
+	ok = c.search(0, 0, &seqState{m: map[string]string{}})
+
+	return ok, c.nodes, !ok && c.nodes > nodeBudget
 }
 
 // ---------------------------------------------------------------------------------------------
@@ -603,7 +606,7 @@ func runStress(rng *hx.Rng, r *hx.Run) result {
 	// bound the number of calls in flight (the checkers' search is exponential in it, not in the number of goroutines);
 	// small pools run unbounded
 	inflight := g
-	if g > 5 && false {
+	if g > 5 {
 		inflight = rng.Range(2, 5)
 	}
 	sem := make(chan struct{}, inflight)
@@ -712,6 +715,18 @@ func runSnapshot(rng *hx.Rng, r *hx.Run) result {
 }
 
 func emit(r *hx.Run, sub uint64, res result) {
+	ops := res.ops
+	sort.Slice(ops, func(i, j int) bool { return ops[i].inv < ops[j].inv })
+	ok, nodes, inconclusive := false, 0, false
+	if !res.timedOut {
+		ok, nodes, inconclusive = linearizable(ops)
+	}
+	if inconclusive {
+		// the search gave up (too many calls in flight for too long): the history decides nothing, drop it
+		r.Count("history-dropped-inconclusive")
+
+		return
+	}
 	r.Case(sub)
 	if res.timedOut {
 		r.Fail("deadlock", "goroutines did not finish within the watchdog time: "+res.desc,
@@ -720,8 +735,6 @@ func emit(r *hx.Run, sub uint64, res result) {
 
 		return
 	}
-	ops := res.ops
-	sort.Slice(ops, func(i, j int) bool { return ops[i].inv < ops[j].inv })
 	lines := make([]string, len(ops))
 	overlaps, crossReads := 0, 0
 	var maxRet uint64
@@ -743,9 +756,11 @@ func emit(r *hx.Run, sub uint64, res result) {
 			r.Fail("no-panic", "operation answered "+o.out+": "+lines[i], map[string]string{"oracle": "panic", "op": o.kind})
 		}
 	}
-	ok, nodes := linearizable(ops)
 	r.Count(fmt.Sprintf("history-len:%03d+", len(ops)/100*100))
 	r.CountN("checker-nodes", nodes)
+	if mx, _ := r.Extra["max_checker_nodes_per_history"].(int); nodes > mx {
+		r.Extra["max_checker_nodes_per_history"] = nodes
+	}
 	if !ok {
 		detail := "history is not linearizable w.r.t. the ordered-map contract (" + res.desc + "): " + strings.Join(lines, " ; ")
 		if len(detail) > 6000 {
@@ -781,7 +796,10 @@ func main() {
 
 		return
 	}
-	n := 400 * r.Scale
+	n := 2000 * r.Scale
+	if r.Tier == "thorough" {
+		n *= 2
+	}
 	for i := 0; i < n; i++ {
 		rng, sub := r.Rng.Fork()
 		if i%8 == 7 {
